@@ -11,7 +11,7 @@ meta = {
     "needs_to_manifest": needs,
     "confirmed": {
         "suite_passes_with_change": "86 passed" in log.split("== demo with change")[0],
-        "demo_fails_with_change": "FAILED" in log.split("== demo with change")[1].split("== demo without change")[0],
+        "demo_fails_with_change": any(w in log.split("== demo with change")[1].split("== demo without change")[0] for w in ("FAILED", "panicked")),
         "demo_passes_without_change": "test result: ok" in log.split("== demo without change")[1],
         "commands": ["cargo nextest run --workspace --no-fail-fast --offline   (in the scratch worktree, demonstration moved aside)",
                      "cargo test --offline --features rayon,serde --test seed_demo   (with the change, then with `git stash -- src`)",
